@@ -1,3 +1,5 @@
--- This module serves as the root of the `MhlModel` library.
--- Import modules here that should be built as part of the library.
+-- Root of the `MhlModel` library: model layers only (no Mathlib); property theorems are in `MhlProps`.
 import MhlModel.Basic
+import MhlModel.Gen.Consts
+import MhlModel.Codec
+import MhlModel.Hashing
